@@ -2,6 +2,7 @@
    yaep_parse phase A (normal path + exit assertions) and phase B (error branch text, rule R3),
    with its callees replaced by contracts that carry ghost init/fin counters. */
 #include "prelude.h"
+#include "yaep_ghost.h"
 /* ---- ghost state ---- */
 struct grammar;
 struct yaep_tree_node;
